@@ -561,6 +561,20 @@ func (p *pathRun) modInverse(fr *frame, recv value, g, n *smt.Term) value {
 		return (*value)(nil)
 	}
 	an := c.Abs(n)
+	// the inverse in [0,|n|) is unique: the same value (as a canonical residue) inverted twice -
+	// e.g. by two parties computing delta^-1 - is the same variable, not two to be proved equal
+	if n.IsConst() && n.Val.Sign() > 0 {
+		key := fmt.Sprintf("inv:%d:%d", p.canonMod(g, n).ID, n.ID)
+		if prev, ok := p.ghost[key]; ok {
+			return p.setBig(fr, recv, bigval{t: prev.(*smt.Term)})
+		}
+		inv := c.Fresh("inv", smt.Int)
+		p.ghost[key] = inv
+		p.markNonNeg(inv)
+		p.axiom("inverse-def", c.And(c.Ge(inv, c.IntC64(0)), c.Lt(inv, an), c.Eq(c.Mod(c.Mul(g, inv), an), c.Mod(c.IntC64(1), an))))
+		p.registerInverse(inv, g, an)
+		return p.setBig(fr, recv, bigval{t: inv})
+	}
 	inv := c.Fresh("inv", smt.Int)
 	p.markNonNeg(inv)
 	p.axiom("inverse-def", c.And(c.Ge(inv, c.IntC64(0)), c.Lt(inv, an), c.Eq(c.Mod(c.Mul(g, inv), an), c.Mod(c.IntC64(1), an))))
